@@ -118,6 +118,9 @@ CATALOG = {
     },
 }
 
+# API that no listed property names: specified, run in the catalogue of the global-clause owners, reported as notes
+CATALOG["GROW"] = {"drivers": [("grow", {"quick": 300, "thorough": 10000}, {})]}
+
 # properties whose clause is evaluated on every event of every trace run the whole catalogue
 GLOBAL_OWNERS = ("C03", "C12", "C14", "C17")
 CATALOGUE_SHARE = {"quick": 0.25, "thorough": 0.25}
